@@ -12,6 +12,18 @@ VERIF = Path(__file__).resolve().parent.parent
 
 # id -> (level category, technique, level text, level note, design section)
 CHECKS = {
+    "C09": (
+        "exploration",
+        "Hypothesis search with constructed physically-consistent parameters against independently written similarity formulas, grid anchors, round trip and scipy.quad",
+        "Every generated profile set is compared with the closure formulas written from the documentation, the grid's anchor nodes, the z0<->u* round trip and a quadrature of the flux-gradient function.",
+        "No positivity claim for the wind at z0; custom grids only inside the formula's validity condition.",
+    ),
+    "C19": (
+        "exploration",
+        "Hypothesis differential search vs the paper's closed form (scipy.special) with typed scalars; metamorphic rot90 / rotation relations; brute-force circular median",
+        "Cell-by-cell agreement with an independent implementation of the published equations at independently rotated coordinates, for int/float/NumPy-typed scalars; mass against the incomplete gamma function on resolving grids; estimateZ0 against the log law and a brute-force median.",
+        "Physically consistent inputs (U > 0); mass only on plume-resolving grids; float32 scalars compared at 2e-4 of the field maximum.",
+    ),
     "C05": (
         "exploration",
         "Hypothesis differential search vs an independent numpy.fft closed-form assembler (part A); generated refinement triples n,2n,4n with an order-of-convergence oracle (part B)",
